@@ -65,19 +65,8 @@ framescan('C13/_available-written-only-in-init-close-connect+every-public-method
           '_available is written only by __init__, close, connect; no public method without a guard contract')
 
 
-def only_with_locks(sources, twin):
-    """Locks are taken only through `with` (no acquire()/release() calls), so every exit releases them (C12, C06)."""
-    problems = []
-    for which in ('io', 'dev'):
-        m, ms = _methods(sources, twin, which)
-        for name, fn in ms.items():
-            for attr in ('acquire', 'release', 'locked'):
-                for c in _calls_of(fn, attr):
-                    problems.append('%s() called in %s (line %d)' % (attr, name, c.lineno))
-    return problems
-
-
-framescan('C12/locks-only-via-with', ['C12', 'C06'], only_with_locks, 'no manual acquire()/release(): locks are held only inside with-blocks')
+# (a former scan "locks only via with" was dropped: acquire()/release() are modelled by the engine, so a manual acquire is decided by the
+#  `locks-released` postconditions on every exit instead of being refused syntactically)
 
 
 def local_id_touched_only_in_open(sources, twin):
